@@ -1353,14 +1353,12 @@ class ThreadsafeForwardingResult(TestResult):
                 self.result.tags(*self._global_tags)
             if self._any_tags(self._test_tags):
                 self.result.tags(*self._test_tags)
-            self._test_tags = set(), set()
             try:
                 method(test, *args, **kwargs)
             finally:
                 self.result.stopTest(test)
         finally:
             self.semaphore.release()
-        self._test_start = None
 
     def addError(self, test, err=None, details=None):
         self._add_result_with_semaphore(
@@ -1443,8 +1441,10 @@ class ThreadsafeForwardingResult(TestResult):
         super().startTest(test)
 
     def stopTest(self, test):
-        # Tags changed after the outcome was forwarded are local to the
-        # finished test: they must not leak into later tests.
+        # The start time and the tags local to the test are kept until here
+        # (a test may report more than one outcome); they must not leak into
+        # later tests.
+        self._test_start = None
         self._test_tags = set(), set()
         super().stopTest(test)
 
